@@ -129,3 +129,18 @@ Definition hc_set_config (h : hc) (c : nat) (cf : hcfg) : hc :=
 
 Definition hc_set_kind (h : hc) (a : N) (k : kind) : hc :=
   mkHc (hc_cfg h) (hc_last h) (hc_inflight h) (upd (hc_kinds h) (N.to_nat (a - 10)) k) (hc_made h).
+
+(** histories of the pair (backends, checker): the steps of C12/Run.v *)
+Inductive hop := HOp (o : op) | HServer (a k : N) | HConfig (c : nat) (cf : hcfg) | HRemove (c : nat) | HPump.
+
+Definition hstep (sh : state * hc) (o : hop) : state * hc :=
+  let '(s, h) := sh in
+  match o with
+  | HOp o => (apply_op s o, h)
+  | HServer a k => (s, hc_set_kind h a k)
+  | HConfig c cf => (s, hc_set_config h c cf)
+  | HRemove c => let '(h', s') := hc_remove h s c in (s', h')
+  | HPump => if hc_made h then let '(h', s') := pump h s in (s', h') else sh   (* no checker yet *)
+  end.
+
+Definition hrun (ops : list hop) : state * hc := fold_left hstep ops (init, hc_init).
